@@ -232,6 +232,7 @@ func cmdRun(args []string) int {
 	tier := fs.String("tier", "quick", "")
 	seedF := fs.Int64("seed", -1, "")
 	root := fs.String("root", "/verif", "")
+	repo := fs.String("repo", "/repo", "source tree of the library under test (scanned for environment variable names only)")
 	racebin := fs.String("racebin", "", "")
 	jobs := fs.Int("jobs", 0, "")
 	fs.Parse(args)
@@ -326,6 +327,10 @@ func cmdRun(args []string) int {
 		mu.Unlock()
 	}
 
+	libEnvNames := scanEnvNames(*repo)
+	if len(libEnvNames) > 0 {
+		fmt.Printf("NOTE: the library reads environment variables %v; a quarter of the workers run with them set to 1\n", libEnvNames)
+	}
 	// normal pass
 	nb := *jobs
 	for i := 0; i < nb; i++ {
@@ -337,6 +342,12 @@ func cmdRun(args []string) int {
 		switch i % 4 {
 		case 1:
 			env = []string{"GOMAXPROCS=1"}
+		case 2:
+			// every environment variable the library's own source reads is set in these workers
+			// (behaviour switched by the environment is behaviour of the library all the same)
+			for _, n := range libEnvNames {
+				env = append(env, n+"=1")
+			}
 		case 3:
 			env = []string{"GOMAXPROCS=2"}
 		}
@@ -632,6 +643,38 @@ func loadKnown(path string) knownFile {
 	}
 	json.Unmarshal(b, &k)
 	return k
+}
+
+// scanEnvNames lists the environment variables the library's non-test source looks up.
+func scanEnvNames(repo string) []string {
+	re := regexp.MustCompile(`(?:Getenv|LookupEnv)\(\s*"([A-Za-z_][A-Za-z0-9_]*)"`)
+	seen := map[string]bool{}
+	filepath.Walk(repo, func(p string, info os.FileInfo, err error) error {
+		if err != nil {
+			return nil
+		}
+		if info.IsDir() {
+			if n := info.Name(); n == ".git" || n == "SEED" || n == "vendor" {
+				return filepath.SkipDir
+			}
+			return nil
+		}
+		if !strings.HasSuffix(p, ".go") || strings.HasSuffix(p, "_test.go") {
+			return nil
+		}
+		if b, err := os.ReadFile(p); err == nil {
+			for _, m := range re.FindAllSubmatch(b, -1) {
+				seen[string(m[1])] = true
+			}
+		}
+		return nil
+	})
+	var out []string
+	for n := range seen {
+		out = append(out, n)
+	}
+	sort.Strings(out)
+	return out
 }
 
 // confirmDeath re-runs the case a dead child was working on, alone, in a fresh
